@@ -22,7 +22,11 @@ for meta_p in sorted(glob.glob(os.path.join(ROOT, 'seeded', '*', 'meta.json'))):
     p = subprocess.run([os.path.join(ROOT, 'tools', 'seed_add.py'), name, m['breaks_property'], os.path.dirname(meta_p)] + checks + ['--tier', tier],
                        capture_output=True, text=True)
     out = p.stdout + p.stderr
-    ok = p.returncode == 0 and f'check {m["breaks_property"]} ({tier}): exit=1' in out
+    # confirmed again, and reported by the check of its property or, when that check is not the one that sees it
+    # (a thread-schedule or history defect belongs to C08 / C09 / C10), by every other check recorded as detecting it
+    own = f'check {m["breaks_property"]} ({tier}): exit=1' in out
+    others = [c for c in (m.get('detected_by') or []) if c != m['breaks_property']]
+    ok = p.returncode == 0 and (own or (others and all(f'check {c} ({tier}): exit=1' in out for c in others)))
     print(('OK   ' if ok else 'FAIL ') + name, '|', ' '.join(l.strip()[:90] for l in out.splitlines() if 'exit=' in l or 'patch does not' in l))
     if not ok:
         bad.append(name)
